@@ -138,6 +138,9 @@ func (mapField *mapOfScalarField) SetGoValue(key string, value interface{}) erro
 	if !reflVal.IsValid() {
 		return fmt.Errorf("cannot set a nil value for key %q in %s", key, mapField.FullTypeName())
 	}
+	if mapField.value.Has(protoreflect.ValueOfString(key).MapKey()) {
+		return fmt.Errorf("key %q already exists in map", key)
+	}
 	mapField.setKey(key, reflVal)
 	return nil
 }
